@@ -229,23 +229,30 @@ Theorem C09_write_long_not_permitted_raises :
     client_write_long h v c s = (Raise (EAtt E_WRITE_NOT_PERMITTED), c, set_wq s []).
 Proof. exact write_long_not_permitted. Qed.
 
-(** FULL STATEMENT: a write procedure that reports success changed the stored value of its
-    target.  Refuted for long writes to attributes that are not characteristic values
-    (KNOWN-FINDING long-write-to-non-value-attribute-reports-success): the theorem below shows
-    that EVERY such long write reports success and stores nothing. *)
-Definition C09_success_means_stored_statement : Prop :=
-  forall c s mtu h a v c' s',
-    clean c s mtu -> (h < 65536)%N -> lookup (sdb s) h = Some a ->
-    (N.of_nat (length v) < 65536)%N -> v <> [] ->
-    client_write_long h v c s = (Ok VTrue, c', s') ->
-    exists u, lookup (sdb s') h = Some (AValue u v) \/ lookup (sdb s') h = Some (ADesc u v).
-
-Theorem C09_success_means_stored_refuted :
-  forall c s mtu h a v,
-    clean c s mtu -> (h < 65536)%N -> lookup (sdb s) h = Some a -> (forall u x, a <> AValue u x) ->
-    (N.of_nat (length v) < 65536)%N ->
-    exists s', client_write_long h v c s = (Ok VTrue, c, s') /\ sdb s' = sdb s.
+(** A long write (and a [write] taking the long path) to anything but a characteristic value is
+    refused by the first Prepare Write and raises: unknown handle INVALID_HANDLE, CCCD
+    REQUEST_NOT_SUPPORTED, service / declaration / other descriptor WRITE_NOT_PERMITTED; nothing
+    is queued, nothing stored ([prep_refusal] gives the code). *)
+Theorem C09_write_long_non_value_raises :
+  forall c s mtu h v code,
+    clean c s mtu -> (h < 65536)%N -> prep_refusal (lookup (sdb s) h) = Some code -> v <> [] ->
+    client_write_long h v c s = (Raise (EAtt code), c, s)
+    /\ (mtu - 3 < length v -> client_write h v c s = (Raise (EAtt code), c, s)).
 Proof. exact write_long_non_value. Qed.
+
+(** WHATEVER the handle holds: a long write that reports success has stored the written bytes in
+    a characteristic value, followed by what the old value had beyond their length (the only
+    recorded exception to "stored = written", KNOWN-FINDING long-write-keeps-old-tail), and
+    touched nothing else; or there was no byte to write and nothing changed. *)
+Theorem C09_write_long_ok_stores_any_attribute :
+  forall c s mtu h v c' s',
+    clean c s mtu -> (h < 65536)%N -> h <> 0%N -> wf_db (sdb s) -> (N.of_nat (length v) < 65536)%N ->
+    client_write_long h v c s = (Ok VTrue, c', s') ->
+    (exists u old, lookup (sdb s) h = Some (AValue u old)
+                   /\ lookup (sdb s') h = Some (AValue u (v ++ skipn (length v) old))
+                   /\ (forall h', h' <> h -> lookup (sdb s') h' = lookup (sdb s) h'))
+    \/ (v = [] /\ sdb s' = sdb s).
+Proof. exact write_long_success_any. Qed.
 
 (** Non-vacuity: a concrete database meets the hypotheses; 329 bytes at MTU 23 (19 chunks) are
     stored entirely and read back entirely (15 requests). *)
